@@ -141,7 +141,8 @@ def targets (c : Cfg) (s : St) (t : Nat) : List Nat :=
     && s.call p.2 == .active).map (·.2)
 
 def advFin (s : St) (t : Nat) : St :=
-  { s with phase := upd s.phase t .fin, res := upd s.res t (s.res t || s.phase t == .post) }
+  -- (from `mid`: an internal transition — no state write, no callback after the decision — has completed)
+  { s with phase := upd s.phase t .fin, res := upd s.res t (s.res t || s.phase t == .post || s.phase t == .mid) }
 
 def outOf (s : St) (t : Nat) : Out :=
   match s.flag t with
@@ -193,6 +194,7 @@ def stepCb (s : St) (t k : Nat) : Option St :=
     | 2, .post => some s
     | 3, .exc => some s
     | 4, .pre => some (advFin s t)
+    | 4, .mid => some (advFin s t)
     | 4, .post => some (advFin s t)
     | 4, .exc => some (advFin s t)
     | 4, .fin => some s
@@ -220,7 +222,7 @@ def stepFail (c : Cfg) (s : St) (t : Nat) : Option St :=
     | _ => none
   else none
 
-def endable (p : Phase) : Bool := p == .pre || p == .post || p == .exc || p == .fin
+def endable (p : Phase) : Bool := p == .pre || p == .mid || p == .post || p == .exc || p == .fin
 
 /-- event `t` leaves `_trigger` (its finalize stage is over) -/
 def finished (s : St) (t : Nat) : St :=
